@@ -24,19 +24,31 @@ variable {α : Type} [CommRing α] [StarRing α] (ofRat : Rat → α)
 /-- the `oshape` attribute of an operator object: the output shape of what it denotes -/
 def oshOf (l : Leaf α) : List Int := ((leafSem0 star ofRat l).map Sem.osh).getD []
 
-/-- `_get_multiply_adjoint_sum_axes` as generated = as modelled -/
+/-- the generated `if` test of `_get_multiply_adjoint_sum_axes` is `i == 1 and (m != 1 or o != 1)` — proved by
+    cases on the three comparisons, so any propositionally equivalent spelling of the test is accepted -/
+theorem multiplySumTest_spec (i m o d : Int) :
+    Gen.LinopAdjoint.multiplySumTest i m o d = decide (i = 1 ∧ (m ≠ 1 ∨ o ≠ 1)) := by
+  unfold Gen.LinopAdjoint.multiplySumTest
+  by_cases h1 : i = 1 <;> by_cases h2 : m = 1 <;> by_cases h3 : o = 1 <;> simp [h1, h2, h3]
+
+theorem matmulSumTest_spec (i m o d : Int) :
+    Gen.LinopAdjoint.matmulSumTest i m o d = decide (i = 1 ∧ (m ≠ 1 ∨ o ≠ 1)) := by
+  unfold Gen.LinopAdjoint.matmulSumTest
+  by_cases h1 : i = 1 <;> by_cases h2 : m = 1 <;> by_cases h3 : o = 1 <;> simp [h1, h2, h3]
+
+/-- `_get_multiply_adjoint_sum_axes` as generated (test, zip ranges) = as modelled -/
 theorem multiplySumAxes_gen (osh ish msh : List Int) :
     Gen.LinopAdjoint.multiplySumAxes osh ish msh = multiplySumAxes osh ish msh := by
-  unfold multiplySumAxes Gen.LinopAdjoint.multiplySumAxes Gen.LinopAdjoint.multiplySumTest
-    Gen.LinopAdjoint.multiplySumDrop
-  simp only [Nat.sub_zero, decide_eq_true_eq]
+  unfold multiplySumAxes Gen.LinopAdjoint.multiplySumAxes
+  simp only [multiplySumTest_spec, decide_eq_true_eq]
+  rfl
 
-/-- `_get_matmul_adjoint_sum_axes` as generated = as modelled -/
+/-- `_get_matmul_adjoint_sum_axes` as generated (test, the two trailing axes skipped) = as modelled -/
 theorem matmulSumAxes_gen (osh ish msh : List Int) :
     Gen.LinopAdjoint.matmulSumAxes osh ish msh = matmulSumAxes osh ish msh := by
-  unfold matmulSumAxes Gen.LinopAdjoint.matmulSumAxes Gen.LinopAdjoint.matmulSumTest
-    Gen.LinopAdjoint.matmulSumDrop
-  simp only [decide_eq_true_eq]
+  unfold matmulSumAxes Gen.LinopAdjoint.matmulSumAxes
+  simp only [matmulSumTest_spec, decide_eq_true_eq]
+  rfl
 
 theorem oshOf_sum (ish axes : List Int) (h : normAxes axes ish.length = axes) :
     oshOf ofRat (.sum ish axes : Leaf α) = removeAxes axes ish := by
